@@ -355,6 +355,12 @@ def parse_cmd_pkt(line: bytes) -> tuple[bytes, list[bytes]]:
     return cmd, args[:-1].split(b"\0")
 
 
+# Largest payload of a single pkt-line: git's LARGE_PACKET_MAX (65520) minus the
+# four length digits.  Anything longer cannot be framed (65532 bytes and more
+# would not even fit the four hex digits) and must be split by the caller.
+MAX_PKT_LINE_DATA = 65516
+
+
 def pkt_line(data: bytes | None) -> bytes:
     """Wrap data in a pkt-line.
 
@@ -365,6 +371,10 @@ def pkt_line(data: bytes | None) -> bytes:
     """
     if data is None:
         return b"0000"
+    if len(data) > MAX_PKT_LINE_DATA:
+        raise ValueError(
+            f"pkt-line data too long: {len(data)} bytes (max {MAX_PKT_LINE_DATA})"
+        )
     return f"{len(data) + 4:04x}".encode("ascii") + data
 
 
